@@ -73,3 +73,11 @@ Fixpoint list_eqb (a b : list Z) : bool :=
   | x :: a', y :: b' => (x =? y) && list_eqb a' b'
   | _, _ => false
   end.
+
+Definition nonnil {A} (l : list A) : bool := match l with [] => false | _ => true end.
+
+Fixpoint map_opt {A B} (f : A -> option B) (l : list A) : option (list B) :=
+  match l with
+  | [] => Some []
+  | x :: xs => match f x, map_opt f xs with Some y, Some ys => Some (y :: ys) | _, _ => None end
+  end.
